@@ -242,6 +242,9 @@ func (s *session) faultRun(r *rig.Rig, w *rec.Writer, sc FaultScenario) error {
 		}
 	}
 	// place the faults that precede the request
+	if sc.Fault != "none" && sc.Fault != "handler-error" {
+		s.ev("leaving", "p", peerName) // from here on the peer is a plugin that fails
+	}
 	switch sc.Fault {
 	case "close-before":
 		peer.Cut.Close()
